@@ -345,6 +345,7 @@ func factsAtDepth(b *ssa.BasicBlock, depth int) []Atom {
 		n := len(out)
 		for i := 0; i < n; i++ {
 			out = append(out, helperSuccessFacts(out[i], depth)...)
+			out = append(out, helperBoolFacts(out[i], depth)...)
 		}
 	}
 	// inside a transparent helper the facts of its call site hold too
@@ -838,6 +839,37 @@ func (s *symCtx) expr(v ssa.Value, d int) string {
 			}
 			if es := s.sliceLitElems(a, d); es != nil {
 				return "[" + strings.Join(es, ", ") + "]"
+			}
+			// make([]T, n) filled by constant index, each slot once: the same list
+			if at, isArr := a.Type().(*types.Pointer).Elem().Underlying().(*types.Array); isArr && x.Referrers() != nil && at.Len() <= 16 {
+				out := make([]string, at.Len())
+				cnt := make([]int, at.Len())
+				okAll := true
+				for _, r := range *x.Referrers() {
+					ia, isIA := r.(*ssa.IndexAddr)
+					if !isIA {
+						continue
+					}
+					k, isK := ia.Index.(*ssa.Const)
+					if !isK || int(k.Int64()) >= len(out) || ia.Referrers() == nil {
+						okAll = false
+						break
+					}
+					for _, rr := range *ia.Referrers() {
+						if st, isSt := rr.(*ssa.Store); isSt && st.Addr == ssa.Value(ia) {
+							cnt[k.Int64()]++
+							out[k.Int64()] = s.expr(st.Val, d+1)
+						}
+					}
+				}
+				for _, n := range cnt {
+					if n != 1 {
+						okAll = false
+					}
+				}
+				if okAll && len(out) > 0 {
+					return "[" + strings.Join(out, ", ") + "]"
+				}
 			}
 		}
 		return s.expr(x.X, d+1) + "[:]"
